@@ -53,6 +53,21 @@ def project(gf) -> dict:
             "fw": int(ext.get("cx")), "fh": int(ext.get("cy"))}
 
 
+def kept_flags(kept, state: dict) -> list:
+    """The merge readers of every cell reached through a Table object obtained earlier."""
+    out = []
+    for ri, row in enumerate(state["rows"]):
+        r = []
+        for ci, _ in enumerate(row):
+            try:
+                c = kept.cell(ri, ci)
+                r.append({"o": bool(c.is_merge_origin), "sp": bool(c.is_spanned), "sh": int(c.span_height), "sw": int(c.span_width)})
+            except Exception:       # noqa: BLE001  a reader that raises reads nothing
+                r.append({"o": False, "sp": False, "sh": -1, "sw": -1})
+        out.append(r)
+    return out
+
+
 class Bench:
     """One slide with the table under test and a second table for cross-table merges."""
 
@@ -155,20 +170,26 @@ def run_group(gid: str, h: list[dict], sizeacts: bool, fanout: bool = True, xsd:
     b.set_texts(gf, h[0]["txt"])
     if h[0].get("var"):
         b.make_variant(gf, h[0]["var"])
-    path = [{"a": h[0], "out": "ok", "t": project(gf), "x": mon()}]
+    t0 = project(gf)
+    kept = gf.table                     # obtained once, read through before and after every call of the path
+    path = [{"a": h[0], "out": "ok", "t": t0, "x": mon(), "kept": kept_flags(kept, t0)}]
     for a in h[1:]:
         out = b.apply(gf, a)
-        path.append({"a": a, "out": out, "t": project(gf), "x": mon()})
+        t = project(gf)
+        path.append({"a": a, "out": out, "t": t, "x": mon(), "kept": kept_flags(kept, t)})
     final = path[-1]["t"]
     steps = []
     if fanout:
         for a in all_actions(final, sizeacts):
             g2, el = b.clone(gf)
+            k2 = g2.table
+            kept_flags(k2, final)
             out = b.apply(g2, a)
             t = project(g2)
+            kf = kept_flags(k2, t)
             x = mon()
             b.drop(el)
             same = t == final
-            steps.append({"a": a, "out": out, "same": same, "t": [] if same else t, "x": x})
+            steps.append({"a": a, "out": out, "same": same, "t": [] if same else t, "x": x, "kept": kf})
     b.drop(gf._element)
     return {"id": gid, "h": h, "created": created, "path": path, "steps": steps, "xbase": base}
